@@ -35,7 +35,7 @@ def judge(ctx, b, cf, histories, what):
     for e in events:
         if e.get("op") == "panic":
             ctx.fail("BlockPool panicked while recording %s history %s: %s" % (what, histories[e["hi"]], e["panic"][:800]))
-    ok, hw, r = ctx.validate_trace("TraceVbftRound", cf["trace"], events, timeout=1500)
+    ok, hw, r = ctx.validate_trace("TraceVbftRound", cf["trace"], events, timeout=4000)
     if not ok:
         ctx.fail("trace validation did not consume the whole log (%s, highwater %d of %d):\n%s" % (what, hw, len(events), r.out[-3000:]))
     drift = 0
@@ -103,8 +103,8 @@ def run(ctx):
            [("VbftRound_gen_end_t.cfg", 4), ("VbftRound_gen_com_t.cfg", 4), ("VbftRound_gen_n7_t.cfg", 7)]
     w = max(1, min(4, ctx.cores // 4))
     with ThreadPoolExecutor(max_workers=len(mcs) + len(gens)) as ex:
-        fm = [ex.submit(ctx.mc, "VbftRoundMC", c, timeout=3000, workers=w) for c in mcs]
-        fg = [ex.submit(ctx.gen, "VbftRoundMC", c, "EDGE", timeout=3000) for c, _ in gens]
+        fm = [ex.submit(ctx.mc, "VbftRoundMC", c, timeout=7000, workers=w) for c in mcs]
+        fg = [ex.submit(ctx.gen, "VbftRoundMC", c, "EDGE", timeout=7000) for c, _ in gens]
         for f in fm:
             f.result()
         edgesets = [f.result() for f in fg]
